@@ -114,6 +114,7 @@ RS(s, d, ly) ==
     [] s.k = "for"    -> II \o <<"for ">> \o (IF s.nm = "" THEN <<>> ELSE <<s.nm>> \o Gap(ly) \o <<":=">> \o Gap(ly))
                            \o <<"range">> \o Flat([i \in DOMAIN s.xs |-> Sep(ly) \o RE(s.xs[i], TRUE, ly)]) \o E
                            \o RBlock(s.ss, d + 1, ly) \o II \o <<"end">> \o E
+    [] s.k = "raw"    -> II \o s.ps \o E          \* a line given as text
     [] OTHER          -> <<"?\n">>
 
 ParamP(p) == <<" ", p.nm, ":">> \o TypeP(p.ty)
